@@ -681,4 +681,16 @@ def rule_listed_dir(ctx):
     rule_listed(ctx, "C02.LISTED")
 
 
-RULES = [rule_res, rule_sink, rule_cwd, rule_only, rule_memo, rule_lookup, rule_home, rule_listed_dir]
+def rule_home_abs(ctx):
+    p = ctx.p
+    ui = p.method("User", "__init__")
+    tests = [n for n in walk_no_nested(ui) if isinstance(n, ast.If) and any(isinstance(c, ast.Call) and is_method_call(c, "is_absolute") and "home_path" in dsrc(p, c, ui) for c in ast.walk(n.test))]
+    ok = False
+    for n in tests:
+        neg = any(not pol for t, pol in flatten_test(p, n.test, True, ui) if isinstance(t, ast.Call) and is_method_call(t, "is_absolute"))
+        ok = ok or (neg and any(isinstance(x, ast.Raise) for x in n.body))
+    ctx.ob("C02.HOME", tests[0] if tests else ui, "a home directory that is not absolute is rejected when the User is built", ok,
+           "User.__init__ accepts a relative home_path: the session's working directory starts relative, the resolver's `parts[1:]` drops its first component", construct="home:relative accepted")
+
+
+RULES = [rule_res, rule_sink, rule_cwd, rule_only, rule_memo, rule_lookup, rule_home, rule_listed_dir, rule_home_abs]
